@@ -21,6 +21,7 @@ from __future__ import annotations
 import copy
 import json
 import os
+import re
 import subprocess
 import sys
 
@@ -70,9 +71,11 @@ S_GMACRO = (
     '<span metal:use-macro="template.macros[\'m\']">x</span>${y()}<b>${g}</b>'
     '<i tal:define="global h items[0]" tal:content="h">x</i>'
     '<span metal:use-macro="template.macros[\'m\']">x</span><u>${h}-${g}</u></div>')
+S_ERR = ('<ul><li tal:repeat="i items">${i}:${100 // (i - 3)}${y()}</li>'
+         '<li tal:condition="not: items[0] - 2">${missing_name}</li></ul>')
 S_NS = ('<br xmlns:tal="urn:example:my-own-vocabulary" tal:role="x" />'
         '<p xmlns:q="urn:q" q:a="1">${name}${y()}</p>')
-STRINGS = {"ns": S_NS, "gmacro": S_GMACRO, "imp1": S_IMP1, "imp2": S_IMP2, "global": S_GLOBAL, "macro": S_MACRO, "code": S_CODE,
+STRINGS = {"err": S_ERR, "ns": S_NS, "gmacro": S_GMACRO, "imp1": S_IMP1, "imp2": S_IMP2, "global": S_GLOBAL, "macro": S_MACRO, "code": S_CODE,
            "i18n": S_I18N, "nested": S_NESTED}
 
 F_LIB = (
@@ -95,11 +98,27 @@ F_I18N = (
     '<div i18n:domain="d"><p i18n:translate="">Hi <b i18n:name="who">${name}</b> and '
     '<i i18n:name="n">${len(items)}</i>${y()} more</p><span tal:content="name">x</span>'
     '<p tal:on-error="string:e">${items[0]}</p></div>')
-FILES = {"i18n.pt": F_I18N, "lib.pt": F_LIB, "page.pt": F_PAGE, "main.pt": F_MAIN,
+# fails for some arguments (items[0] == 1): the error message quotes the
+# expression and its position from the tables built at compile time
+F_ERR = (
+    '<div tal:define="n items[0]"><p>${name}${y()}</p>\n'
+    '  <b tal:content="opts[\'a\'][0] / (n - 1)">x</b>'
+    '<i tal:attributes="title opts[\'b\'][\'c\'] % (n - 2)">${n}</i></div>')
+FILES = {"err.pt": F_ERR, "i18n.pt": F_I18N, "lib.pt": F_LIB, "page.pt": F_PAGE, "main.pt": F_MAIN,
          "self.pt": F_SELF,
          "x/page.pt": F_XPAGE, "x/part.pt": '<span>part-x ${name}${y()}</span>',
          "y/page.pt": F_XPAGE, "y/part.pt": '<span>part-y ${name}${y()}</span>'}
 FILE_MACROS = {"lib.pt": ["m", "n"], "self.pt": ["a", "b"]}
+# what a deployer puts in place of a file while the process is running
+FILES_V2 = {
+    "self.pt": F_SELF.replace("A-${name}", "A2-${name}")
+                     .replace("fx-${name}", "fx2-${name}"),
+    "lib.pt": F_LIB.replace("lib:${name}", "lib2:${name}")
+                   .replace("n:${name}", "n2:${name}"),
+    "main.pt": F_MAIN.replace("<h1>${who}</h1>", "<h2>${who}!</h2>"),
+    "page.pt": F_PAGE.replace("<div tal:define=", '<div class="v2" tal:define='),
+    "i18n.pt": F_I18N.replace("Hi <b", "Hello again <b"),
+}
 USE_CALLER = '<section metal:use-macro="t.macros[\'%s\']"><u metal:fill-slot="s">cs-${name}</u><u metal:fill-slot="x">cx-${name}</u></section>'
 
 
@@ -112,6 +131,18 @@ def tr_stub(msgid, domain=None, mapping=None, context=None,
         text = str(text) + "|" + ",".join(
             "%s=%s" % (k, v) for k, v in mapping.items())
     return "T(%s/%s)" % (domain, text)
+
+
+_SUBDIR = re.compile(r"<root>/[^/\s]+/")
+
+
+def exc_text(e: BaseException) -> str:
+    """The message of a render error up to (not including) the dump of the
+    arguments, with the sandbox directory of the object graph (run / dry /
+    alone<n>) taken out: type, args, expression, file name, line, column
+    and source excerpt must be what a lone render reports."""
+    msg = norm_msg(str(e)).split("\n - Arguments:")[0]
+    return _SUBDIR.sub("<dir>/", msg)[:700]
 
 
 def fs_scratch() -> str:
@@ -160,6 +191,8 @@ class C14(CheckBase):
             return self.gen_xproc(ch, tier)
         if ch.coin(0.15):
             return self.gen_compilerace(ch, tier)
+        if ch.coin(0.15):
+            return self.gen_reloadrace(ch, tier)
         if ch.coin(0.4):
             return self.gen_lazyrace(ch, tier)
         kind = ch.weighted([(3, "string"), (4, "file"), (4, "loader"),
@@ -205,16 +238,21 @@ class C14(CheckBase):
             tasks.append(ops)
         sched = self._gen_sched(ch, ntasks)
         return {"shared": shared, "tasks": tasks, "sched": sched,
-                "coarse": ch.coin(0.25), "observer": ch.coin(0.5)}
+                "coarse": ch.coin(0.25), "observer": ch.coin(0.5),
+                "obs_start": ch.choose(100000) / 100000.0
+                if ch.coin(0.3) else None,
+                "obs_mod": ch.pick([[1, 0], [1, 0], [2, 0], [2, 1], [3, 1]])}
 
     def gen_compilerace(self, ch: Choices, tier: str) -> dict:
         """Two or three threads whose first use compiles file templates at
         the same time; every function entry of the compile-side modules is
         a yield point and the change points favour code-generation steps."""
         names = ch.sample(["i18n.pt", "self.pt", "lib.pt", "main.pt",
-                           "page.pt"], 1 + ch.choose(2))
-        if "i18n.pt" not in names and ch.coin(0.85):
+                           "page.pt", "err.pt"], 1 + ch.choose(2))
+        if "i18n.pt" not in names and ch.coin(0.6):
             names[0] = "i18n.pt"
+        elif "err.pt" not in names and ch.coin(0.5):
+            names[0] = "err.pt"
         shared = [{"kind": "file", "name": n} for n in names]
         tasks = [[["render", t % len(shared), t + 1]]
                  for t in range(2 if ch.coin(0.6) else 3)]
@@ -253,11 +291,49 @@ class C14(CheckBase):
             shared[0]["obs_name"] = name
         return {"shared": shared, "tasks": tasks, "coarse": False,
                 "focus": True, "observer": ch.coin(0.8),
+                "obs_mod": ch.pick([[1, 0], [1, 0], [2, 0], [2, 1], [3, 1]]),
+                "obs_start": ch.choose(100000) / 100000.0
+                if ch.coin(0.3) else None,
                 "sched": {"kind": "pctacc",
                           "prios": ch.shuffle([1, 2, 3]),
                           # (task, position, at a file-system call?)
                           "fracs": [[ch.choose(3), ch.choose(100000) / 100000.0,
                                      cached and ch.coin(0.6)]
+                                    for _ in range(d)]}}
+
+    def gen_reloadrace(self, ch: Choices, tier: str) -> dict:
+        """A shared auto-reloading file template that has been rendered
+        before; its file is replaced, then three threads use it at the same
+        time.  Alone, each of them would get the new version."""
+        name = ch.pick(sorted(FILES_V2))
+        shared = [{"kind": ch.pick(["file", "file", "cachedfile"]),
+                   "name": name, "auto": True}]
+        target = name
+        if name in ("page.pt", "main.pt") and ch.coin(0.3):
+            target = "lib.pt"
+        tasks = []
+        for t in range(3 if ch.coin(0.7) else 2):
+            ops = []
+            for _ in range(1 if ch.coin(0.7) else 2):
+                if name in FILE_MACROS and ch.coin(0.4):
+                    ops.append(["names", 0] if ch.coin(0.4) else
+                               ["use", 0, ch.pick(FILE_MACROS[name]), t + 1])
+                else:
+                    ops.append(["render", 0, t + 1])
+            tasks.append(ops)
+        d = ch.pick([1, 2, 2, 3, 4])
+        cached = shared[0]["kind"] == "cachedfile"
+        return {"shared": shared, "tasks": tasks, "coarse": False,
+                "focus": True, "observer": ch.coin(0.8),
+                "obs_mod": ch.pick([[1, 0], [1, 0], [2, 0], [2, 1], [3, 1]]),
+                "obs_start": ch.choose(100000) / 100000.0
+                if ch.coin(0.75) else None,
+                "reload": {"target": target, "dt": ch.pick([10, 10, -10])},
+                "sched": {"kind": "pctacc",
+                          "prios": ch.shuffle(list(range(1, len(tasks) + 1))),
+                          "fracs": [[ch.choose(len(tasks)),
+                                     ch.choose(100000) / 100000.0,
+                                     ch.coin(0.5 if cached else 0.25)]
                                     for _ in range(d)]}}
 
     def gen_xproc(self, ch: Choices, tier: str) -> dict:
@@ -464,8 +540,9 @@ class C14(CheckBase):
             if k == "string":
                 objs.append(zt.PageTemplate(STRINGS[s["name"]]))
             elif k == "file":
-                objs.append(zt.PageTemplateFile(os.path.join(d, s["name"]),
-                                                search_path=owned()))
+                objs.append(zt.PageTemplateFile(
+                    os.path.join(d, s["name"]), search_path=owned(),
+                    **({"auto_reload": True} if s.get("auto") else {})))
             elif k == "loader":
                 objs.append(self.TemplateLoader(owned()))
             elif k == "cached":
@@ -475,8 +552,26 @@ class C14(CheckBase):
             elif k == "cachedfile":
                 objs.append(zt.PageTemplateFile(
                     os.path.join(d, s["name"]),
-                    loader=self.ModuleLoader(os.path.join(d, "cache"))))
+                    loader=self.ModuleLoader(os.path.join(d, "cache")),
+                    **({"auto_reload": True} if s.get("auto") else {})))
         return objs
+
+    def prior_history(self, world: World, sub: str, objs: list,
+                      reload: dict | None) -> None:
+        """What happened to the shared objects before the operations under
+        test: with ``reload``, one render each, then the deployer replaces
+        a file (new content, new modification time)."""
+        if not reload:
+            return
+        for o in objs:
+            self.do_op([o], ["render", 0, 77], [None])
+        with world.harness():
+            path = os.path.join(world.path(sub), reload["target"])
+            st = os.stat(path)
+            with real.open(path, "w") as f:
+                f.write(FILES_V2[reload["target"]])
+            t = st.st_mtime_ns + reload["dt"] * 1_000_000_000
+            real.utime(path, ns=(t, t))
 
     def do_op(self, objs: list, op: list, sched_box) -> list:
         zt = self.zt
@@ -501,10 +596,15 @@ class C14(CheckBase):
                 return ["ok", t.render(**a)]
             raise AssertionError(kind)
         except Exception as e:      # noqa: BLE001
-            return ["exc", type(e).__name__, norm_msg(str(e))[:300]]
+            if isinstance(e, WouldBlock):
+                # (the atomic observer met a lock held by a parked task:
+                # not an outcome, the observation is abandoned)
+                raise WouldBlock(str(e.args[0]) if e.args else "") from None
+            return ["exc", type(e).__name__, exc_text(e)]
 
-    def expected(self, world: World, shared: list, op: list) -> list:
-        key = canonical([shared[op[1]], op])
+    def expected(self, world: World, shared: list, op: list,
+                 reload: dict | None = None) -> list:
+        key = canonical([shared[op[1]], op, reload])
         r = self._exp_cache.get(key)
         if r is None:
             if len(self._exp_cache) > 5000:
@@ -513,6 +613,7 @@ class C14(CheckBase):
             world._alone = n + 1
             with world.harness():
                 objs = self.build_graph(world, "alone%d" % n, shared)
+                self.prior_history(world, "alone%d" % n, objs, reload)
                 r = self.do_op(objs, op, [None])
             self._exp_cache[key] = r
         return r
@@ -537,13 +638,17 @@ class C14(CheckBase):
         stats = {"fired": {}, "skipped": {}, "ops": 0, "switches": 0,
                  "interesting_switches": 0, "line_events": 0}
         all_ops = [op for t in case["tasks"] for op in t]
-        exp = {canonical(op): self.expected(world, shared, op)
+        reload = case.get("reload")
+        exp = {canonical(op): self.expected(world, shared, op, reload)
                for op in all_ops}
 
         def phase(sub: str, policy_spec: dict, record_labels=None):
             proc = world.new_proc("P" + sub)
             with world.harness():
                 objs = self.build_graph(world, sub, shared)
+            if reload:
+                with world.as_proc(proc):
+                    self.prior_history(world, sub, objs, reload)
             sched = Scheduler(make_policy(policy_spec), log,
                               max_steps=400_000)
             sched.on_switch = world.on_switch
@@ -556,9 +661,12 @@ class C14(CheckBase):
 
                 def yp(label, interesting=False, **kw):
                     labels.append(interesting)
+                    if kw.get("access") and label.startswith("line:"):
+                        acc_labels.add(label)
                     return orig(label, interesting, **kw)
                 sched.yield_point = yp      # type: ignore[method-assign]
-            done_ops = [0] * len(shared)
+            # (after a reload every object has a compiled past already)
+            done_ops = [1 if reload else 0] * len(shared)
             for ti, ops in enumerate(case["tasks"]):
                 out: list = []
                 results.append(out)
@@ -583,8 +691,28 @@ class C14(CheckBase):
                         obs_ops.append(["render", si, 90 + si])
                 turn = [0]
 
+                # (an observer that runs at *every* such instant repairs
+                # what it observes - it would reload a changed file itself
+                # one line before the window it is meant to look into - so
+                # it takes only every m-th instant, offset r)
+                om = case.get("obs_mod") or [1, 0]
+                seen_acc = [0]
+                # ... and may stay away until a given source line comes up
+                # for the first time (lines, not instants, drawn uniformly:
+                # a line that runs once per reload is as likely as one that
+                # runs on every render)
+                wait_for = [obs_start_label]
+
                 def observer(me, label):
                     if not sched.last_access or budget[0] <= 0:
+                        return
+                    if wait_for[0] is not None:
+                        if label != wait_for[0]:
+                            return
+                        wait_for[0] = None
+                        seen_acc[0] = om[1] - 1
+                    seen_acc[0] += 1
+                    if seen_acc[0] % om[0] != om[1]:
                         return
                     si = turn[0] % len(shared)
                     turn[0] += 1
@@ -615,8 +743,10 @@ class C14(CheckBase):
         # dry run (boring schedule) to measure the number of events and to
         # find the events inside shared-state functions
         dkey = short_hash([shared, case["tasks"], case.get("coarse"),
-                           case.get("focus")])
+                           case.get("focus"), reload])
         labels: list | None = None
+        acc_labels: set = set()
+        obs_start_label = None
         pol = dict(case["sched"])
         if pol.get("kind") in ("pct", "pctacc") and "fracs" in pol:
             d = self._dry_cache.get(dkey)
@@ -637,6 +767,7 @@ class C14(CheckBase):
                                     "events": log.count}
                 hot = [i + 1 for i, x in enumerate(labels) if x]
                 d = {"n": len(labels), "hot": hot,
+                     "acc_labels": sorted(acc_labels),
                      "acc": max([t.access_events for t in dsched.tasks]
                                 or [0]),
                      "fs": max([t.fs_events for t in dsched.tasks] or [0])}
@@ -647,6 +778,9 @@ class C14(CheckBase):
                 # keep the event log independent of cache hits: the dry
                 # run's own events are never logged
                 pass
+            if case.get("obs_start") is not None and d["acc_labels"]:
+                obs_start_label = d["acc_labels"][
+                    int(case["obs_start"] * len(d["acc_labels"]))]
             if pol["kind"] == "pctacc":
                 pts = []
                 for fr in pol["fracs"]:
@@ -676,10 +810,11 @@ class C14(CheckBase):
                 if sh["kind"] == "loader":
                     obs_exp.append(self.expected(world, shared, [
                         "load_render", si, sh.get("obs_name", "self.pt"),
-                        90 + si]))
+                        90 + si], reload))
                 else:
                     obs_exp.append(self.expected(world, shared,
-                                                 ["render", si, 90 + si]))
+                                                 ["render", si, 90 + si],
+                                                 reload))
         sched, objs, results = phase("run", pol)
         owned_lists = list(self._owned)
         for step, label, op, r in observer_bad[:1]:
@@ -758,6 +893,8 @@ class C14(CheckBase):
             {"op:" + op[0] for op in all_ops}
         if case.get("coarse"):
             cover.add("compile-side-yields")
+        if reload:
+            cover.add("reload-race")
         return {"violations": uniq, "digest": log.digest(),
                 "events": sched.step, "stats": stats, "cover": sorted(cover),
                 "nontrivial": nontrivial,
@@ -840,7 +977,12 @@ class C14(CheckBase):
                 "points (half of them snapped to events inside shared-state "
                 "functions) or uniform random switching; 25% of runs also "
                 "yield at every function entry of the compile-side "
-                "modules. A run is non-trivial if at least one context "
+                "modules; 15% of schedule runs are reload races (an "
+                "auto-reloading file template rendered once, its file or "
+                "library replaced, then used by 2-3 threads at once). Some "
+                "pool templates fail for some arguments: the error text "
+                "(class, args, expression, file, position, excerpt) must "
+                "equal the lone run's. A run is non-trivial if at least one context "
                 "switch happened inside a shared-state function (cook, "
                 "cook_check, load, _load, build, Macros.*, render, a lock "
                 "operation, a file-system call or a probe inside a "
@@ -868,7 +1010,9 @@ class C14(CheckBase):
                          "scheduler-aware re-entrant lock)"]},
             "assumptions": [
                 "pre-emption granularity is a source line (not a bytecode)",
-                "files do not change during a C14 run (that axis is C16)",
+                "files do not change *during* the concurrent phase of a C14 "
+                "run; in the reload-race family one is replaced between a "
+                "first render and that phase",
                 "expected values come from the same operation run alone on "
                 "a fresh, separately compiled object graph"],
             "extra": {"ops_executed": st.get("ops", 0)},
